@@ -372,3 +372,6 @@ PROPS["C18"]["rule"] = PROPS["C18"]["rule"] + (
 PROPS["C18"]["assumptions"] = PROPS["C18"].get("assumptions", []) + [
     "PoResource: locale directories named by the 3-letter code only (gotext's fallback to the 2-letter directory is not exercised), no msgctxt, no plural forms, no duplicate msgids",
     "PoResource: the context value \"Language\" is a lang.Language, as the engine and the VM put it there"]
+
+PROPS["C13"]["rule"] = PROPS["C13"]["rule"].replace("{Put a 1, Put a 2, Put b 1, Get a, Get b, Start, Stop, Abort}", "{Put a 1, Put a 2, Put b 1, Get a, Get b, Start, Stop, Abort, Dump a}").replace("quick 735 007 / thorough 8 812 634 elements", "quick 1 296 083 elements, thorough proportionally larger")
+PROPS["C13"]["assumptions"] = [a.replace("Connect/ensureTable and Dump are not modelled", "Connect/ensureTable are not modelled; the Dump iteration after the deferred Commit is modelled as the fake exhibits it (result set materialised at Query time)") for a in PROPS["C13"]["assumptions"]]
